@@ -95,6 +95,10 @@ class VerifyService:
                     its_aid_length=0,
                     permissions=b'',
                 )
+            if self.sign_service is not None:
+                # The ticket is known from now on: no further P2PCD request for it.
+                self.sign_service.notify_known_at(
+                    authorization_ticket.as_hashedid8())
         elif signer[0] == "digest":
             authorization_ticket = (
                 self.certificate_library.get_authorization_ticket_by_hashedid8(
